@@ -385,4 +385,51 @@ CLAIMED["C13"] = {
                  "implementation-vs-uninterrupted-run predicate",
 }
 
+_PUNISH_NOTE = ("partial by nature (crypto, script engine): key tweaks, sighash, taproot commitments and the full "
+                "script engine are exercised by the real txscript engine on every justice / resolution input of every "
+                "run, not proved; the Script layer models btcd's witness-v0/tapscript interpreter for the BOLT-3 opcode "
+                "subset with symbolic crypto and is differential-tested against txscript; P2WSH/taproot commitments and "
+                "key-path spends are decided by the real engine only. The witness-type table of contractcourt's breach "
+                "arbitrator is copied into the harness. Lease channels run with ThawHeight 0 (fixture). Trusted: Coq "
+                "kernel, translator (script templates/witness shapes), harnesses, python predicates.")
+CLAIMED["C04"] = {
+    "design_ref": "DESIGN.md §4 C04, notes/C04.md, notes/SCRIPT.md",
+    "text": "Proved on the cut-level channel model for EVERY schedule incl. disconnects/restarts (ghost-history wrapper "
+            "over the resync machine): the revocation log is exactly the list of commitments the counterparty held "
+            "(height = index, each produced by commit_of, i.e. the one that was signed: C01 agreement), and the "
+            "retribution decision table claims every non-anchor output of such a commitment exactly once with its "
+            "amount (dust HTLCs skipped). Script layer (regenerated from input/script_utils.go by the Go->Coq "
+            "translator on every run): every revocation witness template is accepted by the Gallina script interpreter "
+            "for all keys/hashes/delays given a valid revocation signature, and rejected without it. Tie: seeded "
+            "schedules on two real LightningChannels (7 channel types, both sides as victim, with/without stored "
+            "amount data, live and reloaded from disk): for every revoked height the real NewBreachRetribution (with "
+            "and without the spend tx), a justice transaction assembled like the breach arbitrator, EVERY input run "
+            "through the real txscript engine against the real revoked outputs (~5 800 inputs per quick run), the "
+            "second-level variant, GetStateNumHint == height, and the revocation-log record vs the actual transaction; "
+            "model revocation-log entries and retribution lists compared with the observed ones (vm_compute).",
+    "note": _PUNISH_NOTE + " State-hint round trip is checked on the implementation only (no Coq theorem).",
+    "technique": "Coq invariant proof (ghost-history wrapper over the resync machine) + Coq script-interpreter theorems "
+                 "over regenerated templates (T1) + differential harness with the real NewBreachRetribution and script engine",
+}
+CLAIMED["C05"] = {
+    "design_ref": "DESIGN.md §4 C05, notes/C05.md, notes/SCRIPT.md",
+    "text": "Proved: for every commitment a party holds in every reachable state (own tail/tip, counterparty's "
+            "current/pending; also after resync) the resolutions cover every output that is the party's exactly once: "
+            "claimable = own balance (if >= dust) + all on-transaction HTLCs = outputs - counterparty output - anchors, "
+            "with the exact msat ledger equation incl. dust loss; own to_local and second-level outputs are never dust. "
+            "Script layer (templates regenerated from input/script_utils.go on every run): all 22 local/remote spend "
+            "paths (to_local after CSV, HTLC timeout/success, second-level, to_remote confirmed/lease, preimage claim, "
+            "CLTV timeout, anchors, taproot leaves) are accepted by the Gallina interpreter with the exact "
+            "nSequence/nLockTime lnd sets; success needs the preimage, timeout needs nLockTime >= expiry, delayed paths "
+            "need BIP-112. Tie: at every local tail and at sampled states (pending remote commitment, unrevoked local "
+            "tip, reloaded channels) of seeded schedules on two real LightningChannels: own signed commitment vs the "
+            "funding output, NewLocalForceCloseSummary / NewUnilateralCloseSummary (current and pending), every "
+            "SignedTimeoutTx/SignedSuccessTx and every sweep run through the real txscript engine (~2 300 close reports, "
+            "~2 900 HTLC resolutions per quick run); resolutions and claimable totals compared with the model.",
+    "note": _PUNISH_NOTE + " C05_htlc_sig_index (sort-key statement) not proved: exercised through duplicate HTLCs "
+            "and the engine's check of the counterparty's HTLC signatures.",
+    "technique": "Coq proof (ledger equations on the channel model, script-interpreter theorems over regenerated "
+                 "templates) + differential harness with real force-close summaries and the real script engine",
+}
+
 NOT_CLAIMED = {}
